@@ -265,6 +265,8 @@ Proof.
     destruct l4 as [t cd rest| |]; try discriminate.
     repeat (apply andb_true_iff in W; destruct W as [W ?]).
     match goal with X : beq (ra_fixed ++ ob) rest = true |- _ => apply beq_eq in X; subst rest end.
+    match goal with X : (t =? 134) = true |- _ => pose proof X as Ht; apply N.eqb_eq in Ht; subst t end.
+    change (icmp6_hop_ok 134 b hop) with (nd_hop_ok hop) in *.
     rewrite W. repeat match goal with X : _ = true |- _ => rewrite X end.
     cbn [andb]. change (skipn 12 (ra_fixed ++ ob)) with ob.
     rewrite Eob, ndp_opts_encode by exact V. rewrite ra_triples_tv, beq_opts_refl.
